@@ -5,7 +5,7 @@
    generalize = px.Generalize, generic = px.GenericType) over Model/Lattice.v (`asg rx true` = GuardedIsAssignable
    + IsAssignable as the code is, `inst rx true` = IsInstance).  `rx` (Go regexp matching) is arbitrary. *)
 From Coq Require Import ZArith NArith Bool List.
-From PcoreV Require Import Model.Base Model.Ty Model.Lattice Model.Infer Proofs.LatticeBasics Proofs.LatticeRule Proofs.InferProofs Proofs.InferCommon Proofs.InferInst.
+From PcoreV Require Import Model.Base Model.Ty Model.Lattice Model.Infer Model.InferHist Proofs.LatticeBasics Proofs.LatticeRule Proofs.InferProofs Proofs.InferCommon Proofs.InferInst Proofs.InferHistProofs.
 Import ListNotations.
 Open Scope Z_scope.
 
@@ -218,4 +218,99 @@ Example C04_infer_nonvacuous :
   (* the order of the elements matters: the wider element second (fixed defect common-returns-narrower) *)
   infer rx (VArr [VArr [VInt 1]; VArr [VInt 1; a]]) = TArray (TArray TScalarData 1 2) 2 2 /\
   inst rx true (infer rx (VArr [VArr [VInt 1]; VArr [VInt 1; a]])) (VArr [VArr [VInt 1]; VArr [VInt 1; a]]) = true.
+Proof. vm_compute. repeat split; reflexivity. Qed.
+
+(* ---- histories: inference on values that share parts, in any order ---- *)
+(* Model/InferHist.v: the objects of a value graph (a collection refers to its elements, an object can be an
+   element of several collections), the lazily filled reducedType / detailedType fields of every Array and Hash
+   object, and histories of v.PType(), DetailedValueType(v), CommonType(a, b), Generalize(a) whose type operands are
+   literal types or the results of earlier operations.  `run` is the code (memoised), `spec_run` the pure functions
+   of Model/Infer.v.  For EVERY graph and EVERY history: each operation returns, and each cache holds, the pure
+   function of the value the object denotes. *)
+Theorem C04_history_pure :
+  forall (rx : str -> str -> bool) (ns : list node) (ops : list op),
+    wf_dag ns = true -> forallb (op_ok ns) ops = true ->
+    snd (run rx ns ops) = spec_run rx ns ops /    (forall i t, get_red (fst (run rx ns ops)) i = Some t -> t = infer rx (nth i (vals_of ns) VUndef)) /    (forall i t, get_det (fst (run rx ns ops)) i = Some t -> t = infer_detailed rx (nth i (vals_of ns) VUndef)).
+Proof.
+  intros rx ns ops Hwf Hops. destruct (history_pure rx ns Hwf ops Hops) as [H1 (_ & H2 & H3)].
+  split; [exact H1|]. split; [exact H2|exact H3].
+Qed.
+Print Assumptions C04_history_pure.
+
+(* hence the stated relations hold of what the k-th operation returned at the END of every history that contains it
+   (whatever was asked before and after), under the hypotheses of the single-operation theorems *)
+Theorem C04_history_infer_inst_partial :
+  forall (rx : str -> str -> bool) (ns : list node) (ops : list op) (k i : nat),
+    wf_dag ns = true -> forallb (op_ok ns) ops = true -> nth_error ops k = Some (OPType i) ->
+    iv_ok rx (nth i (vals_of ns) VUndef) = true ->
+    inst rx true (nth k (snd (run rx ns ops)) TFault) (nth i (vals_of ns) VUndef) = true.
+Proof.
+  intros rx ns ops k i Hwf Hops Hk Hv. rewrite (history_result_end rx ns Hwf ops k _ Hops Hk eq_refl). cbn [spec_op].
+  apply C04_infer_inst_partial. exact Hv.
+Qed.
+Print Assumptions C04_history_infer_inst_partial.
+
+Theorem C04_history_detailed_inst_partial :
+  forall (rx : str -> str -> bool) (ns : list node) (ops : list op) (k i : nat),
+    wf_dag ns = true -> forallb (op_ok ns) ops = true -> nth_error ops k = Some (ODetailed i) ->
+    dv_ok rx (nth i (vals_of ns) VUndef) = true ->
+    inst rx true (nth k (snd (run rx ns ops)) TFault) (nth i (vals_of ns) VUndef) = true.
+Proof.
+  intros rx ns ops k i Hwf Hops Hk Hv. rewrite (history_result_end rx ns Hwf ops k _ Hops Hk eq_refl). cbn [spec_op].
+  apply C04_infer_detailed_inst_partial. exact Hv.
+Qed.
+Print Assumptions C04_history_detailed_inst_partial.
+
+(* the operands are the result objects as they are at the end of the history *)
+Theorem C04_history_common_ub_partial :
+  forall (rx : str -> str -> bool) (ns : list node) (ops : list op) (k : nat) (a b : tref),
+    wf_dag ns = true -> forallb (op_ok ns) ops = true -> nth_error ops k = Some (OCommon a b) ->
+    ref_ok k a = true -> ref_ok k b = true ->
+    let res := snd (run rx ns ops) in
+    let ta := deref res a in
+    let tb := deref res b in
+    common_ok rx (S (tsize ta + tsize tb)) ta tb = true -> wf_ty ta = true -> wf_ty tb = true ->
+    no_other (common rx ta tb) = true ->
+    asg rx true (nth k res TFault) ta = true /\ asg rx true (nth k res TFault) tb = true.
+Proof.
+  intros rx ns ops k a b Hwf Hops Hk Ha Hb res ta tb Hok Hwa Hwb Hno.
+  assert (Hr : refs_ok k (OCommon a b) = true) by (cbn [refs_ok]; rewrite Ha, Hb; reflexivity).
+  unfold res at 1 3. rewrite (history_result_end rx ns Hwf ops k _ Hops Hk Hr). cbn [spec_op].
+  apply C04_common_ub_partial; assumption.
+Qed.
+Print Assumptions C04_history_common_ub_partial.
+
+Theorem C04_history_generalize_ub :
+  forall (rx : str -> str -> bool) (ns : list node) (ops : list op) (k : nat) (a : tref),
+    wf_dag ns = true -> forallb (op_ok ns) ops = true -> nth_error ops k = Some (OGeneralize a) -> ref_ok k a = true ->
+    let res := snd (run rx ns ops) in
+    gen_ok (deref res a) = true -> asg rx true (nth k res TFault) (deref res a) = true.
+Proof.
+  intros rx ns ops k a Hwf Hops Hk Ha res Hg.
+  unfold res at 1. rewrite (history_result_end rx ns Hwf ops k _ Hops Hk Ha). cbn [spec_op].
+  apply C04_generalize_ub. exact Hg.
+Qed.
+Print Assumptions C04_history_generalize_ub.
+
+(* one value, ['a','b','c'], element of two arrays; the inferences interleaved; the merged Enum of the first parent
+   is merged again (the history of the seeded change C04-m3) *)
+Example C04_history_nonvacuous :
+  let rx := fun _ _ => false in
+  let s := fun c : N => NLeaf (VStr [c]) in
+  let ns := [s 97%N; s 98%N; s 99%N; NArr [0; 1; 2]%nat; s 100%N; NArr [4%nat]; s 101%N; NArr [6%nat];
+             NArr [3; 5]%nat; NArr [3; 7]%nat; NHash [(0, 3); (4, 8)]%nat] in
+  let ops := [OPType 8; ODetailed 3; OPType 9; OCommon (RRes 0) (RRes 2); OPType 8; OGeneralize (RRes 3); ODetailed 10; OPType 3]%nat in
+  let e := fun l => TEnum false (map (fun c : N => [c]) l) in
+  wf_dag ns = true /\ forallb (op_ok ns) ops = true /  nth 8 (vals_of ns) VUndef = VArr [VArr [VStr [97%N]; VStr [98%N]; VStr [99%N]]; VArr [VStr [100%N]]] /  snd (run rx ns ops) =
+    [TArray (TArray (e [97; 98; 99; 100]%N) 1 3) 2 2;
+     TTuple [TStringVal [97%N]; TStringVal [98%N]; TStringVal [99%N]] false 3 3;
+     TArray (TArray (e [97; 98; 99; 101]%N) 1 3) 2 2;
+     TArray (TArray (e [97; 98; 99; 100; 101]%N) 1 3) 2 2;
+     TArray (TArray (e [97; 98; 99; 100]%N) 1 3) 2 2;
+     TArray (TArray (TEnum false []) 0 MaxI) 0 MaxI;
+     TStruct [([97%N], (TStringVal [97%N], TTuple [TStringVal [97%N]; TStringVal [98%N]; TStringVal [99%N]] false 3 3));
+              ([100%N], (TStringVal [100%N], TTuple [TTuple [TStringVal [97%N]; TStringVal [98%N]; TStringVal [99%N]] false 3 3;
+                                                       TTuple [TStringVal [100%N]] false 1 1] false 2 2))];
+     TArray (e [97; 98; 99]%N) 3 3] /  get_red (fst (run rx ns ops)) 3 = Some (TArray (e [97; 98; 99]%N) 3 3) /  get_red (fst (run rx ns ops)) 10 = None /  iv_ok rx (nth 8 (vals_of ns) VUndef) = true /  inst rx true (nth 0 (snd (run rx ns ops)) TFault) (nth 8 (vals_of ns) VUndef) = true /  (* what the seeded change turned the first result into does not contain the value *)
+  inst rx true (TArray (TArray (e [97; 98; 99; 101]%N) 1 3) 2 2) (nth 8 (vals_of ns) VUndef) = false.
 Proof. vm_compute. repeat split; reflexivity. Qed.
